@@ -3604,23 +3604,24 @@ def _fix_duplicate_from_imports(source: str) -> str:
         module_import_nodes = collections.defaultdict(list)
 
         for node in group:
-            module_import_aliases[node.module].update(
+            # from .a import x and from a import y are imports from different modules
+            module_import_aliases[(node.module, node.level)].update(
                 (alias.name, alias.asname if alias.asname != alias.name else None)
                 for alias in node.names
             )
-            module_import_nodes[node.module].append(node)
+            module_import_nodes[(node.module, node.level)].append(node)
 
-        for module, import_nodes in module_import_nodes.items():
+        for (module, level), import_nodes in module_import_nodes.items():
             if len(import_nodes) > 1:
                 replacements[import_nodes[0]] = ast.ImportFrom(
                     module=module,
                     names=[
                         ast.alias(name=name, asname=asname)
                         for name, asname in sorted(
-                            module_import_aliases[module],
+                            module_import_aliases[(module, level)],
                             key=lambda t: (t[0], t[1] is not None, t[1]),
                     )],
-                    level=import_nodes[0].level,
+                    level=level,
                 )
                 removals.update(import_nodes[1:])
 
